@@ -1,6 +1,6 @@
 SPECIFICATION Spec
-CONSTANT EVariant = "faithful"
-CONSTANT Tier = "thorough"
+CONSTANT EVariant = "single_override"
+CONSTANT Tier = "quick"
 INVARIANT StreamIsEnc
 INVARIANT SizeIsLen
 INVARIANT Dispatch
